@@ -182,6 +182,11 @@ func (r *c10run) del(a int) {
 func (r *c10run) get(api, a, want int) {
 	addr := addrN(a)
 	st, ob, capn := 0, 0, 0
+	defer func() {
+		if recover() != nil { // a panicking read is an observation (status 4), not a harness failure
+			r.seq.Ops = append(r.seq.Ops, []any{"G", []int{0, 0, 1, 1, 2, 2}[api], a, capn, 4, 0, api})
+		}
+	}()
 	switch api {
 	case 0:
 		d, err := r.t.GetBytes(addr)
